@@ -25,7 +25,9 @@ func (sl *StringLiteral) String() string {
 	if sl == nil {
 		return ""
 	}
-	str := "\"" + sl.Token.Literal + "\""
+	// Escape backslashes first, or a real newline and a backslash
+	// followed by "n" would have the same representation.
+	str := "\"" + strings.ReplaceAll(sl.Token.Literal, "\\", "\\\\") + "\""
 	str = strings.ReplaceAll(str, "\n", "\\n")
 	str = strings.ReplaceAll(str, "\r", "\\r")
 	str = strings.ReplaceAll(str, "\t", "\\t")
